@@ -180,6 +180,9 @@ MovesUnion(h, kn) ==
                  \* the same reference inside an operator (the operator node must take its type from the column as the union sees it)
                  \o MapS(Take(SetToSortSeq({c \in kn : c \in Scope(h[lc]) /\ h[lc].ty[c] = "int"}, <), 2),
                          LAMBDA c : MMutate(jc, <<KV("probe", Fn2("mul", Col(c), LitI(2)))>>))
+                 \* an integer-only operator through the old reference: type-checked against the column as the union sees it
+                 \o MapS(Take(SetToSortSeq({c \in kn : c \in Scope(h[lc]) /\ h[lc].ty[c] = "int"}, <), 2),
+                         LAMBDA c : MMutate(jc, <<KV("probe", Fn2("floordiv", Col(c), LitI(2)))>>))
                  \* ... and inside a case expression / an aggregate built from the old references
                  \o MapS(Take(SetToSortSeq({c \in kn : c \in Scope(h[lc]) /\ h[lc].ty[c] = "int"}, <), 2),
                          LAMBDA c : MMutate(jc, <<KV("probe", Case1D(Fn2("gt", Col(c), LitI(0)), Col(c), LitI(0)))>>))
@@ -275,6 +278,10 @@ RefProbes(h, i, kn) ==
         \o <<MMutate(i, <<KV("probe", CN("a"))>>), MMutate(i, <<KV("probe", CN("b"))>>)>>
         \o MapS(Take(allInt, 2), LAMBDA c : MFilter(i, <<Fn1("is_not_null", Col(c))>>))
         \o (IF t.part = <<>> THEN MapS(Take(allInt, 2), LAMBDA c : MSelect(i, <<Col(c)>>)) ELSE <<>>)
+        \* two different columns, one given by a reference whose ORIGINAL name the other column carries now (e.g. after a swap)
+        \o (IF t.part = <<>> THEN MapS(SelectSeq(Take(allInt, 3), LAMBDA c : c \in VisSet(t) /\ c \in Scope(h[1]) /\ h[1].nm[c] \in VisNames(t)
+                                                                             /\ ByName(t)[h[1].nm[c]] # c),
+                                      LAMBDA c : MSelect(i, <<Col(c), CN(h[1].nm[c])>>)) ELSE <<>>)
         \* drop through a reference: removes THAT column (nothing, if it is hidden - never the column that carries its old name now)
         \o (IF t.part = <<>> THEN MapS(SelectSeq(Take(allInt, 3), LAMBDA c : Len(t.vis) >= 2 \/ c \notin VisSet(t)), LAMBDA c : MDrop(i, <<Col(c)>>)) ELSE <<>>)
 
@@ -314,6 +321,8 @@ MovesReroot(h, kn) ==
              \o MapS(b, LAMBDA c : MMutate(i, <<KV("b", Fn2("add", Col(c), LitI(1)))>>))       \* hidden column before re-rooting
              \o MapS(a, LAMBDA c : MRename(i, <<[c |-> Col(c), n |-> "k"]>>))
              \o (IF Len(t.vis) >= 2 THEN MapS(b, LAMBDA c : MDrop(i, <<Col(c)>>)) ELSE <<>>)
+             \* a reordering select before re-rooting: the metadata of the re-rooted table follows the selection, not the definition order
+             \o (IF Len(t.vis) >= 3 /\ t.part = <<>> THEN <<MSelect(i, <<Col(t.vis[Len(t.vis)]), Col(t.vis[1]), Col(t.vis[2])>>)>> ELSE <<>>)
              \o MapS(g, LAMBDA c : MGroupBy(i, <<Col(c)>>, FALSE))
              \o MapS(b, LAMBDA c : MFilter(i, <<Fn2("gt", Col(c), LitI(0))>>))
              \o (IF t.part # <<>> /\ b # <<>> THEN <<MSummarize(i, <<KV("s", Agg("sum", Col(b[1])))>>),
